@@ -9,6 +9,7 @@ import itertools, json, math
 from fractions import Fraction
 import common
 from common import enc, dec, err_kind
+from props import c19_tr as TR
 
 ID = "C19"
 RULE = ("structured random cases per generator (all 8 numbers-vs-streams combinations of modulo_counter, "
@@ -33,9 +34,28 @@ RULE = ("structured random cases per generator (all 8 numbers-vs-streams combina
         "impulse / adsr / attack with durations one or two ulps around x.5 (0.49999999999999994), durations given as float / int / "
         "bool / Fraction / float subclass, inf / -inf / nan / None / omitted, every positional / keyword / omitted-default call "
         "shape of line, truthy and falsy non-bool `finish`; white / gauss noise with one limit by keyword and the other left to "
-        "its default, degenerate distributions (low == high, sigma == 0: exact values); a case is non-trivial when the impl yields at least "
+        "its default, degenerate distributions (low == high, sigma == 0: exact values); before the build the translator harness/props/c19_tr.py rewrites lean/ALV/Gen/C19Src.lean from the source text of modulo_counter / line / fadein / fadeout / attack / adsr (no case is generated for it: the theorems src_*_is_model are re-checked against what the source says now); a case is non-trivial when the impl yields at least "
         "one sample (multi: two calls do); distinct = distinct JSON case")
 TRUSTED = [
+    "translator harness/props/c19_tr.py (ast of audiolazy/lazy_synth.py -> lean/ALV/Gen/C19Src.lean, nothing imported from "
+    "the repo; regenerated on every run; modulo_counter, line, fadein, fadeout, attack, adsr): TRUSTED are (1) the semantics "
+    "it assumes of its Python subset, written once in lean/ALV/Model/C19Src.lean - a generator function read through n "
+    "next() calls is a pair (outputs, exception); statements run in order; an expression that can raise (`%`, int()) is "
+    "evaluated where it stands, before / after the single `yield` of a loop body (Iter.pre / post / runPre); the state of a "
+    "loop is the tuple of the variables its body assigns; `for .. in xzip(..)` stops with its shortest argument and reads "
+    "them in lock step (forG over List.zip); `while True` never ends by itself (whileG); `for v in xrange(k): yield E` with "
+    "a pure E is the list segment rangeG; augmented assignment `x += E` is `x = x + E`; (2) the vocabulary mapping - the "
+    "kinds of the parameters (table PARAMS: number / bool / number-or-iterable), `isinstance(x, Iterable)` as the case "
+    "split of `Arg`, float literals 0. / 1. / .5 as NumOps.zero / one / half, `E == 0` as NumOps.isZero, `+ - * /` and unary "
+    "minus as the NumOps fields with an int operand entering through NumOps.ofInt, `E % m % m` as modChain (one NumOps.mod "
+    "per `%` written), int() as NumOps.trunc, `abs(E) < float('inf')` as `int(E) would not raise` (finiteG; exact for "
+    "binary64: int() refuses exactly inf, -inf and nan), iter / next / `is None` on an optional list; the decorator "
+    "`tostream` and the `Stream` wrapper are not translated (what the wrapper adds is the subject of C02). NOT trusted: "
+    "the translated text itself - src_modulo_counter_is_model, src_line_is_model, src_fadein/fadeout_is_model, "
+    "src_adsr_is_model, src_attack_is_model prove it equal to the code shaped models mcNow / lineG / adsrG / attackNow that "
+    "the driver runs and the differential tie compares with the real outputs (exact and bit for bit), so a wrong reading of "
+    "the source shows either as a failing theorem or as a model mismatch; check translator-selftest: 8 deliberate edits of "
+    "the source text must change the generated text, comments must not, the clean source must reproduce the committed file",
     "float regime: Lean's `Float` + - * / are the C double operations (IEEE binary64, round to nearest even) exactly as "
     "CPython's; C fmod, Python's sign adjustment of float `%` (Objects/floatobject.c float_rem: `mod += wx` when the signs "
     "differ, copysign(0, wx) for a zero remainder), int(), math.ceil and the exact decoding of a float are written in Lean "
@@ -77,8 +97,9 @@ TRUSTED = [
     "TableLookup attributes (`table`: which list; `cycles`) are read at the call: a stream already returned is not "
     "affected by later attribute assignments (theorem hist_stream_isolated); what an open stream yields after the list it "
     "refers to was changed in place is NOT fixed by the property (such streams are not read again)",
-    "hand-written Lean model ALV/Model/C19.lean of lazy_synth (modulo_counter, line, fades, ones, zeros, impulse, "
-    "adsr, attack, TableLookup call/getitem/operators/normalize/harmonize, sinusoid, karplus_strong, noise durations) "
+    "hand-written Lean model ALV/Model/C19.lean of lazy_synth (modulo_counter, line, fades, adsr, attack: hand-written, but "
+    "proved equal to the definitions regenerated from the source, see the translator line; ones, zeros, impulse, "
+    "TableLookup call/getitem/operators/normalize/harmonize, sinusoid, karplus_strong, noise durations) "
     "and lazy_poly.resample + lagrange.func (modelled, not verified: Python's %, int(), math.ceil, zip, deque(maxlen), "
     "negative list indices, the generator protocol, PEP 479)",
     "float arithmetic of the impl is compared exactly only in the dyadic regime (all intermediate values exactly "
@@ -113,7 +134,13 @@ ASSUMPTIONS = [
     "long runs: values are small dyadic rationals so that binary floating point is exact over tens of thousands of steps",
 ]
 MANIFEST = {
-    "text": "89 Lean 4 theorems. Float regime: operation-generic generators (record NumOps) run on IEEE binary64 predict the "
+    "technique": "Lean 4 machine-checked proof over an executable model + source-to-Lean translator of generator function "
+                 "bodies (harness/props/c19_tr.py -> lean/ALV/Gen/C19Src.lean, theorems src_*_is_model re-checked on every run) "
+                 "+ differential correspondence with the implementation (exact and bit for bit on binary64)",
+    "text": "102 Lean 4 theorems. The bodies of modulo_counter (8-way isinstance dispatch, 12 loops, every `% modulo` "
+            "counted), line, fadein, fadeout, attack, adsr are REGENERATED from the source text on every run and proved equal "
+            "to the code shaped models (src_modulo_counter_is_model, src_line_is_model, src_adsr_is_model, "
+            "src_attack_is_model, ...), hence to the specifications over exact numbers. Float regime: operation-generic generators (record NumOps) run on IEEE binary64 predict the "
             "real float outputs bit for bit (all eight branches / spellings of modulo_counter, fast paths, oscillators, "
             "durations at the x.5 rounding boundaries); over the exact operations they are the proved model; every output of "
             "every path is a double reduction y % m % m, which lies in [0, m) for any monotone rounding while a single float "
@@ -639,7 +666,9 @@ def shrink_mc(c):
                 yield dict(c, **{k: dict(a, strm=xs[:c["n"]], ts=a["ts"][:c["n"]])})
             if a.get("kind") != "list":
                 yield dict(c, **{k: dict(a, kind="list")})
-            if xs and len(set(xs)) == 1 and len(xs) >= c["n"]:
+            referred = (k in (c.get("alias") or []) or (c.get("raises") or {}).get("arg") == k
+                        or (c.get("late") or {}).get("arg") == k)      # the case names this argument as a stream
+            if xs and len(set(xs)) == 1 and len(xs) >= c["n"] and not referred:
                 yield dict(c, **{k: {"num": xs[0], "t": a["ts"][0]}})
             for i, x in enumerate(xs):
                 q = dec(x)
@@ -1941,8 +1970,41 @@ for _alias, _of in (("table_getitem", "table_call"), ("fadein", "line"), ("fadeo
     GEN_OF[_alias] = _of
 
 
+TRANSLATED = {
+    "translator": "harness/props/c19_tr.py -> lean/ALV/Gen/C19Src.lean (shallow: Lean definitions over NumOps in the "
+                  "vocabulary of lean/ALV/Model/C19Src.lean)",
+    "under_translator": {
+        "modulo_counter": "src_modulo_counter_is_model (= mcNow; = mcG where int(modulo/step) raises nothing; = moduloCounter "
+                          "= mcRec over exact numbers): dispatch, 11 loop bodies + the step == 0 shortcut",
+        "line": "src_line_is_model (= lineG), src_line_eq_spec",
+        "fadein": "src_fadein_is_model (line with the defaults read from line's signature)",
+        "fadeout": "src_fadeout_is_model",
+        "adsr": "src_adsr_is_model (= adsrG), src_adsr_eq_spec",
+        "attack": "src_attack_is_model (= attackNow: attackG, empty sustain iterable -> empty envelope), src_attack_eq_spec",
+        "defaults / decorators of these": "src_defaults_are_documented (decide)",
+    },
+    "not_translated": TR.NOT_TRANSLATED,
+}
+
+
+def regenerate(eng=None):
+    """translator: lean/ALV/Gen/C19Src.lean from the source of the repo under test"""
+    if eng is not None:
+        eng.extra["translated"] = TRANSLATED
+    return TR.regenerate(eng)
+
+
 def extra_checks(eng):
-    """facts the generators rely on"""
+    """facts the generators rely on; the translator's self test"""
+    eng.extra["translated"] = TRANSLATED
+    try:
+        st = TR.selftest()
+    except Exception as e:      # the source cannot be translated: already reported by regenerate
+        st = [("source translates", False, "%s: %s" % (type(e).__name__, e))]
+    bad = [(n, d) for n, ok, d in st if not ok]
+    eng.extra["translator_selftest"] = {"items": len(st), "failed": [n for n, _ in bad],
+                                        "seen": [n for n, ok, _ in st if ok]}
+    yield ("translator-selftest", not bad, "; ".join("%s: %s" % nd for nd in bad))
     yield ("magic-cycles", C0 * 2 * math.pi == 1.0 and (C0 * 8) * 2 * math.pi == 8.0,
            "1/(2*pi) * 2 * pi is not exactly 1.0 on this platform: the exact regime of TableLookup is void")
     f = exact_freq_for(4.25)
